@@ -46,7 +46,7 @@ CODENAMES = {
     "c": "%Y-%m-%dT%H:%M:%S+00:00",
     "r": "%a, %d %b %Y %H:%M:%S +0000",
     "t": lambda d: str(calendar.monthrange(d.year, d.month)[1]),
-    "xr": ("process_next", lambda n: roman.toRoman(int(n))),
+    "xr": ("process_next", lambda n: roman.toRoman(int(n)) if 0 < int(n) < 5000 else n),
 }
 
 
